@@ -214,6 +214,20 @@ def run(prog: Program, chk: Check):
         G.decide(not bad, fkey(sf, f"guard:{name}"), where(sf), f"{name} is excluded before anything is published",
                  f"a failed {name} ({v}) still produces a FAILED_MESSAGE (recursion guard does not cover it)")
 
+    # every other way out of send_failed_message passes the publication: an early return for any other reason loses the notice
+    # for whoever would have received it (subscribers to FAILED_MESSAGE *and* to ALL_MESSAGE_TYPES)
+    pub_ids = {n.id for n in effects}
+    sgs2 = flow.guard_states(sg, edge_filter=lambda e: not (e.src in pub_ids and e.kind != "exc"))
+    unpublished = [p for e in sg.pred[sg.exit.id] if e.src not in pub_ids for p in sgs2.after_edge(e)]
+    unpublished = [[(guards.fold_consts(guards.subst(e, scm), sres), pol) for e, pol in p] for p in unpublished]
+    in_guard = guards.parse(" or ".join(f"{shdr}.msg_type == {v}" for v in sorted(set(required.values()))))
+    all_types = consts.get("ALL_MESSAGE_TYPES")
+    nobody = guards.parse(f"not self.subscriptions[{consts.get('MT_FAILED_MESSAGE')}] and not self.subscriptions[{all_types}]")
+    loose = [p for p in unpublished if guards.any_path_implies([p], in_guard) and guards.any_path_implies([p], nobody)]
+    G.decide(not loose, fkey(sf, "published-unless-guarded"), where(sf), f"{len(unpublished)} way(s) out without publishing, each for a guarded type (or with no possible recipient)",
+             "send_failed_message can return without publishing the notice for a type outside the recursion guard; guards on that path: "
+             + (", ".join(("" if pol else "not ") + norm(x) for x, pol in loose[0]) if loose else ""))
+
     # ---- N notice contents -------------------------------------------------------------------------------------------------
     N = chk.rule("C14-N", "the notice names the failed subscriber, copies every header field, and is published as MT_FAILED_MESSAGE to everyone", 4,
                  "subscribers to FAILED_MESSAGE rely on dest_mod_id and the original type/source/destination")
